@@ -38,6 +38,9 @@ pub enum LockOp {
 	/// the in-process holder queues a burst of commits and drops its handle while two other
 	/// threads keep trying to open the directory
 	DropRacing(u8),
+	/// the in-process holder takes a tree reader (a client object that keeps the database's
+	/// internals alive) and keeps it beyond the drop of its handle
+	KeepReader(u8),
 }
 
 #[derive(Clone, Debug, Serialize, Deserialize)]
@@ -51,7 +54,7 @@ pub struct LockCase {
 }
 
 pub fn child_main(dir: &str) -> i32 {
-	let cfg = DbCfg::new(vec![ColCfg::hash()]);
+	let cfg = DbCfg::new(vec![ColCfg::hash(), ColCfg::multi()]);
 	let stdin = std::io::stdin();
 	let mut line = String::new();
 	// wait for "go"
@@ -110,7 +113,7 @@ enum Held {
 
 pub fn run_case(case: &LockCase, dir: &Path) -> CaseResult {
 	let mut out = CaseOut::default();
-	let cfg = DbCfg::new(vec![ColCfg::hash()]);
+	let cfg = DbCfg::new(vec![ColCfg::hash(), ColCfg::multi()]);
 	let db_dir = dir.join("db");
 	// initial content, optionally left with pending logs
 	let mut written: Vec<u16> = Vec::new();
@@ -120,6 +123,9 @@ pub fn run_case(case: &LockCase, dir: &Path) -> CaseResult {
 			db.commit(vec![(0u8, cfg.cols[0].key(k), Some(vec![k as u8; 20]))]).map_err(|e| Failure::new("commit-failed", e.to_string()))?;
 			written.push(k);
 		}
+		// a small tree, so that tree readers can be taken
+		let tree = parity_db::NewNode { data: vec![1, 2, 3], children: vec![parity_db::NodeRef::New(parity_db::NewNode { data: vec![4], children: vec![] })] };
+		db.commit_changes(vec![(1u8, parity_db::Operation::InsertTree(cfg.cols[1].key(0), tree))]).map_err(|e| Failure::new("commit-failed", e.to_string()))?;
 		if case.with_pending_logs {
 			// log and sync, do not apply; then take a crash image and use it as the directory
 			for _ in 0..3 {
@@ -139,6 +145,8 @@ pub fn run_case(case: &LockCase, dir: &Path) -> CaseResult {
 	let n = case.actors.len();
 	let mut held: Vec<Option<Held>> = (0..n).map(|_| None).collect();
 	let mut holder: Option<usize> = None;
+	// client objects that outlive the handle they came from
+	let mut kept_readers = Vec::new();
 	let check_content = |db: &Db, written: &[u16]| -> Res<()> {
 		for k in written {
 			match db.get(0, &cfg.cols[0].key(*k)) {
@@ -300,6 +308,19 @@ pub fn run_case(case: &LockCase, dir: &Path) -> CaseResult {
 				out.label("open-while-held");
 				out.label("opens-racing-a-drop");
 			},
+			LockOp::KeepReader(a) => {
+				let a = *a as usize % n;
+				if let Some(Held::Local(db)) = &held[a] {
+					match db.get_tree(1, &cfg.cols[1].key(0)) {
+						Ok(Some(r)) => {
+							kept_readers.push(r);
+							out.label("tree-reader-outlives-handle");
+						},
+						Ok(None) => {},
+						Err(e) => fail!("get-tree-failed", "{e}"),
+					}
+				}
+			},
 			LockOp::Write(k) => {
 				if let Some(h) = holder {
 					if let Some(Held::Local(db)) = &held[h] {
@@ -393,6 +414,7 @@ fn lock_case() -> impl Strategy<Value = LockCase> {
 			1 => (0u8..4).prop_map(LockOp::Kill),
 			2 => any::<u16>().prop_map(LockOp::Write),
 			1 => (0u8..4).prop_map(LockOp::DropRacing),
+			1 => (0u8..4).prop_map(LockOp::KeepReader),
 		];
 		proptest::collection::vec(op, 2..14).prop_map(move |ops| LockCase { actors: actors.clone(), ops, race, with_pending_logs })
 	})
